@@ -345,7 +345,7 @@ fn gen_inputs(rng: &mut Rng) -> (String, String, String, String, &'static str) {
 }
 
 pub fn run(ctx: &Ctx, rep: &mut Report) {
-    let n = ctx.budget(40_000, 3_000_000);
+    let n = ctx.budget(160_000, 4_000_000);
     let cli_every = if ctx.thorough { 400 } else { 150 };
     for case in 0..n {
         let mut rng = ctx.rng("case", case);
@@ -371,7 +371,7 @@ pub fn run(ctx: &Ctx, rep: &mut Report) {
 /// loader ABI without a prior check: a panic here aborts the process, so this part runs in its own jobs
 pub fn run_loader(ctx: &Ctx, rep: &mut Report) {
     crate::panicguard::set_print(true);
-    let n = ctx.budget(8_000, 400_000);
+    let n = ctx.budget(24_000, 600_000);
     for case in 0..n {
         let mut rng = ctx.rng("loader", case);
         let (_, op, frag, config, kind) = gen_inputs(&mut rng);
